@@ -1,5 +1,6 @@
 import PptxModel.Model.Proto
 import PptxModel.Model.PropStore
+import PptxModel.Model.Color
 namespace Pptx.Drv.C09
 open Pptx Pptx.Proto Pptx.PropStore Pptx.SimpleTypes
 
@@ -10,6 +11,62 @@ def decPair (t : String) : Option (Nat × Option Int) :=
   match t.splitOn ":" with
   | [a, v] => do let a ← a.toNat?; let v ← oi v; pure (a, v)
   | _ => none
+
+/-! `c09.color`: a colour as `-` or `kind:val:tag=val,...` (kinds 0..5 = scrgb srgb hsl sys scheme prst; `!` = no
+    transform children), a history `r<rgb>` / `t<theme>` / `b<n>/<d>`; per assignment: verdict, element, the four readers -/
+open Pptx.Color in
+def kindOf : Nat → Option Kind
+  | 0 => some .scrgb | 1 => some .srgb | 2 => some .hsl | 3 => some .sys | 4 => some .scheme | 5 => some .prst | _ => none
+open Pptx.Color in
+def kindNo : Kind → Nat
+  | .scrgb => 0 | .srgb => 1 | .hsl => 2 | .sys => 3 | .scheme => 4 | .prst => 5
+
+def decKid (t : String) : Option (Nat × Int) :=
+  match t.splitOn "=" with
+  | [a, v] => do let a ← a.toNat?; let v ← v.toInt?; pure (a, v)
+  | _ => none
+
+open Pptx.Color in
+def decClr (t : String) : Option St :=
+  if t == "-" then some none else
+  match t.splitOn ":" with
+  | [k, v, kids] => do
+      let k ← k.toNat?; let k ← kindOf k; let v ← v.toNat?
+      let kids ← if kids == "!" then some [] else (kids.splitOn ",").mapM decKid
+      pure (some ⟨k, v, kids⟩)
+  | _ => none
+
+open Pptx.Color in
+def encClr : St → String
+  | none => "-"
+  | some c => s!"{kindNo c.kind}:{c.val}:" ++
+      (if c.kids.isEmpty then "!" else ",".intercalate (c.kids.map fun k => s!"{k.1}={k.2}"))
+
+open Pptx.Color in
+def decOp (t : String) : Option Op :=
+  if t.startsWith "r" then (t.drop 1).toString.toNat?.map .rgb
+  else if t.startsWith "t" then (t.drop 1).toString.toNat?.map .theme
+  else if t.startsWith "b" then
+    match (t.drop 1).toString.splitOn "/" with
+    | [n, d] => do let n ← n.toInt?; let d ← d.toNat?; pure (.bright n d)
+    | _ => none
+  else none
+
+open Pptx.Color in
+def readers (s : St) : String :=
+  let ty := match typeOf s with | none => "n" | some k => toString (kindNo k)
+  let rgb := match rgbOf s with | none => "e" | some v => toString v
+  let th := match themeOf s with | .error => "e" | .notTheme => "x" | .theme t => toString t
+  let br := match brightOf s with | none => "e" | some b => toString b
+  s!"{ty} {rgb} {th} {br}"
+
+open Pptx.Color in
+def colorRun (s : St) : List Op → List String
+  | [] => []
+  | op :: rest =>
+    match step s op with
+    | none => s!"ref|{encClr s}|{readers s}" :: colorRun s rest
+    | some s' => s!"ok|{encClr s'}|{readers s'}" :: colorRun s' rest
 
 def handle : List String → Option String
   | ["c09.run", dflts, init, ops, reads] => do
@@ -29,6 +86,10 @@ def handle : List String → Option String
       let n ← n.toInt?; let d ← d.toNat?
       let s := brightStore n d
       pure s!"{so s.1} {so s.2} {brightRead s}"
+  | ["c09.color", start, ops] => do
+      let s ← decClr start
+      let ops ← if ops == "!" then some [] else (ops.splitOn ";").mapM decOp
+      pure (";".intercalate (s!"start|{encClr s}|{readers s}" :: colorRun s ops))
   | ["c09.grad", n, d] => do
       let n ← n.toInt?; let d ← d.toNat?
       pure s!"{gradStore n d} {gradRead (gradStore n d)}"
